@@ -1224,3 +1224,11 @@ func init() {
 	addControl(control{Prop: "C07", Name: "list-entries-hashed-under-a-comparable-test", Rule: "R07t", Kind: "refactor",
 		File: "validator.go", Old: "func validateArray(val reflect.Value, opts *options) error {\n	for i := 0; i < val.Len(); i++ {\n", New: "func validateArray(val reflect.Value, opts *options) error {\n	seen := map[interface{}]bool{}\n	for i := 0; i < val.Len(); i++ {\n		if e := chaseValue(val.Index(i)); e.IsValid() && e.CanInterface() && e.Comparable() {\n			seen[e.Interface()] = true\n		}\n"})
 }
+
+func init() {
+	// round 13 (C19-r13, C15-r13)
+	addControl(control{Prop: "C19", Name: "key-value-argument-trimmed", Rule: "R19k", Kind: "mutant", Quick: true,
+		File: "flag/value.go", Old: "			key = args[0]\n			if args[1] == \"\" {\n				return nil, nil, nil\n			}\n\n			val, err = parse.Value(args[1])", New: "			key = strings.TrimSpace(args[0])\n			args[1] = strings.TrimSpace(args[1])\n			if args[1] == \"\" {\n				return nil, nil, nil\n			}\n\n			val, err = parse.Value(args[1])", Expect: "R19k/flag.NewFlagKeyValue"})
+	addControl(control{Prop: "C15", Name: "flattened-keys-cut-relative-to-the-node", Rule: "R15p", Kind: "mutant", Quick: true,
+		File: "ucfg.go", Old: "	keys := c.flattenedKeys(normalizedOptions)\n	sort.Strings(keys)\n", New: "	keys := c.flattenedKeys(normalizedOptions)\n	for i, k := range keys {\n		if p := c.Path(normalizedOptions.pathSep); len(p) < len(k) {\n			keys[i] = k[len(p):]\n		}\n	}\n	sort.Strings(keys)\n", Expect: "R15p/(*ucfg.Config).FlattenedKeys"})
+}
